@@ -20,6 +20,7 @@ pub struct Knobs {
     pub wild_strings: bool,    // strings from all XML classes (else plain ASCII)
     pub wild_ext: bool,        // extension names/urls over the whole accepted alphabet
     pub big_points: bool,      // allow several packets
+    pub full_packets: bool,    // narrow prototypes with enough points to fill whole data packets (up to 65 k points each)
     pub max_records: usize,    // prototype length cap
     pub residue_sweep: Option<u32>, // force a leading blob so that the next section starts at this logical residue mod 1020
     pub width_focus: Option<usize>, // force an integer record of this bit width (C12)
@@ -38,6 +39,7 @@ impl Knobs {
             wild_strings: false,
             wild_ext: false,
             big_points: true,
+            full_packets: false,
             max_records: 24,
             residue_sweep: None,
             width_focus: None,
@@ -148,6 +150,8 @@ pub struct Scene {
     pub no_finalize: bool,
     /// stop the program at the first call that returns Err (fault runs, C16)
     pub stop_on_err: bool,
+    /// a failed PointCloudWriter::finalize does not end the program: the caller ignores the error and goes on (C16 stage d)
+    pub carry_on: bool,
     /// selects how the data sources handed to add_blob / add_* deliver their bytes (whole, in pieces ...)
     pub src_salt: u8,
     /// some blobs are first offered through a source that fails half-way (the call must fail), then added again
@@ -923,6 +927,19 @@ pub fn gen_point(r: &mut Rng, p: &[Record], nan_ok: bool) -> RawValues {
 fn gen_point_count(r: &mut Rng, p: &[Record], k: &Knobs, cover: &mut crate::Cover) -> usize {
     let ppp = points_per_packet(p);
     let small = *r.pick(&[0usize, 1, 2, 3, 7, 8, 9, 17, 64]);
+    if k.full_packets {
+        // whole data packets also for narrow points: the capacity computation of the writer is exact only if
+        // header, byte stream lengths, carried-over bits and the padding to a multiple of four all fit
+        if let Some(pp) = ppp {
+            if pp > 0 && pp <= 70000 {
+                let kk = 1 + r.usize(3);
+                let d = r.range(-2, 2);
+                let bits = p.iter().map(|x| dt_bits(&x.data_type)).sum::<usize>();
+                cover.hit(&format!("count:full_packets:k{}:bits{}", kk, bits.min(400) / 8 * 8));
+                return ((kk * pp) as i64 + d).max(0) as usize;
+            }
+        }
+    }
     if !k.big_points {
         return small;
     }
@@ -1305,6 +1322,7 @@ pub fn gen_scene(r: &mut Rng, k: &Knobs, cover: &mut crate::Cover) -> Scene {
         },
         no_finalize: false,
         stop_on_err: false,
+        carry_on: false,
         src_salt: 0,
         failing_sources: false,
     }
@@ -1759,7 +1777,10 @@ pub fn run_scene(scene: &Scene, dev: Dev, judge: Judge) -> RunResult {
                         if !exp.tainted {
                             res.violations.push(viol(pj, format!("reject/pc-finalize/{}", err_class(&err)), err_str(&err)));
                         }
-                        // section is broken now; stop the program here
+                        // section is broken now; stop the program here (unless the caller is one that carries on)
+                        if scene.carry_on {
+                            continue;
+                        }
                         return res;
                     }
                     Err(_) => return res,
